@@ -1143,3 +1143,200 @@ Lemma cancelled_before_entry : forall r np,
 Proof.
   intros r np. repeat split. apply cleanup_complete.
 Qed.
+
+(* ------------------------------------------------------------------------------------------ *)
+(* Part 7: registration concurrent with release - every order of the operations.               *)
+Record RInv (S P : nat) (st : sst) (acc : list nat) : Prop := {
+  ri_below : forall s p x, fst st s p = Some x -> s < S /\ p < P;
+  ri_acc   : forall x, In x acc -> (exists s p, fst st s p = Some x) \/ 1 <= snd st x
+}.
+
+Definition op_below (S P : nat) (o : sop) : bool :=
+  match o with OAdd s p _ => Nat.ltb s S && Nat.ltb p P | _ => true end.
+
+Lemma rinv_step : forall S P st acc o, op_below S P o = true -> RInv S P st acc ->
+  RInv S P (sm_step P st o) (acc ++ accepts (fst st) o).
+Proof.
+  intros S P [m cl] acc o Hb [Hbel Hacc]. cbn [fst snd] in *. destruct o as [s p x|s p|s].
+  - (* AddStream *)
+    cbn in Hb. apply andb_prop in Hb. destruct Hb as [Hs Hp].
+    apply Nat.ltb_lt in Hs. apply Nat.ltb_lt in Hp.
+    cbn [sm_step accepts]. unfold sm_add. destruct (m s p) as [y|] eqn:Hm.
+    + rewrite app_nil_r. constructor; cbn [fst snd]; assumption.
+    + constructor; cbn [fst snd].
+      * intros s' p' x' H. destruct (Nat.eqb s' s && Nat.eqb p' p) eqn:He.
+        -- apply andb_prop in He. destruct He as [H1 H2].
+           apply Nat.eqb_eq in H1. apply Nat.eqb_eq in H2. subst. now split.
+        -- now apply (Hbel s' p' x').
+      * intros x' Hin. apply in_app_or in Hin. destruct Hin as [Hin|[<-|[]]].
+        -- destruct (Hacc x' Hin) as [[s0 [p0 H0]]|Hc]; [left | now right].
+           exists s0, p0. destruct (Nat.eqb s0 s && Nat.eqb p0 p) eqn:He; [|exact H0].
+           apply andb_prop in He. destruct He as [H1 H2].
+           apply Nat.eqb_eq in H1. apply Nat.eqb_eq in H2. subst. congruence.
+        -- left. exists s, p. now rewrite !Nat.eqb_refl.
+  - (* Stream *)
+    cbn [sm_step accepts]. rewrite app_nil_r. constructor; cbn [fst snd]; assumption.
+  - (* ReleaseStreams *)
+    cbn [sm_step accepts sm_release]. rewrite app_nil_r. constructor; cbn [fst snd].
+    + intros s' p' x' H. destruct (Nat.eqb s' s); [discriminate | now apply (Hbel s' p' x')].
+    + intros x' Hin. destruct (Hacc x' Hin) as [[s0 [p0 H0]]|Hc]; [|right; lia].
+      destruct (Nat.eqb_spec s0 s) as [->|Hne].
+      * right. destruct (Hbel s p0 x' H0) as [_ Hp0].
+        assert (Hr : In x' (row P m s)) by (apply in_row; now exists p0).
+        apply (count_occ_In Nat.eq_dec) in Hr. lia.
+      * left. exists s0, p0. destruct (Nat.eqb_spec s0 s); [contradiction | exact H0].
+Qed.
+
+Lemma adds_below_cons : forall S P o ops, adds_below S P (o :: ops) = true ->
+  op_below S P o = true /\ adds_below S P ops = true.
+Proof. intros S P o ops H. unfold adds_below in H. cbn in H. now apply andb_prop in H. Qed.
+
+Lemma rinv_exec : forall S P ops st acc, adds_below S P ops = true -> RInv S P st acc ->
+  RInv S P (sm_exec P st ops) (acc ++ accepted P st ops).
+Proof.
+  intros S P ops. induction ops as [|o r IH]; intros st acc Hb HI; cbn.
+  - now rewrite app_nil_r.
+  - apply adds_below_cons in Hb. destruct Hb as [Ho Hr].
+    rewrite app_assoc. apply IH; [exact Hr | now apply rinv_step].
+Qed.
+
+Lemma rinv_init : forall S P, RInv S P sst0 [].
+Proof. intros S P. constructor; cbn; [discriminate | contradiction]. Qed.
+
+Lemma adds_below_release_all : forall S P, adds_below S P (release_all S) = true.
+Proof.
+  intros S P. unfold adds_below, release_all. apply forallb_forall. intros o Ho.
+  apply in_map_iff in Ho. destruct Ho as [s [<- _]]. reflexivity.
+Qed.
+
+(* a list of releases empties the sessions it names and registers nothing *)
+Lemma exec_releases : forall P l st,
+  let st' := sm_exec P st (map ORelease l) in
+  (forall s p, In s l -> fst st' s p = None) /\
+  (forall s p, fst st s p = None -> fst st' s p = None).
+Proof.
+  intros P l. induction l as [|a r IH]; intros st; cbn.
+  - split; [contradiction | auto].
+  - destruct st as [m cl]. cbn [sm_step sm_release].
+    specialize (IH (fun s' p' => if Nat.eqb s' a then None else m s' p',
+                    fun x => cl x + count_occ Nat.eq_dec (row P m a) x)).
+    cbn zeta in IH. destruct IH as [IH1 IH2]. split.
+    + intros s p [<-|Hin]; [|now apply IH1].
+      apply IH2. cbn. now rewrite Nat.eqb_refl.
+    + intros s p Hn. apply IH2. cbn. destruct (Nat.eqb s a); [reflexivity | exact Hn].
+Qed.
+
+(* EVERY sequence of operations (every order in which overlapping AddStream / Stream / ReleaseStreams
+   calls can take effect), followed by a last release of every session: every stream that was ever
+   registered has been closed, and the registry is empty *)
+Lemma srace_model : forall S P ops, adds_below S P ops = true ->
+  let st := sm_exec P sst0 (ops ++ release_all S) in
+  (forall x, In x (accepted P sst0 ops) -> 1 <= snd st x) /\
+  (forall s p, fst st s p = None).
+Proof.
+  intros S P ops Hb st.
+  pose proof (rinv_exec S P ops sst0 [] Hb (rinv_init S P)) as H1. cbn [app] in H1.
+  pose proof (rinv_exec S P (release_all S) _ _ (adds_below_release_all S P) H1) as H2.
+  unfold sm_exec in st, H1, H2. rewrite <- fold_left_app in H2. fold st in H2.
+  assert (Hempty : forall s p, fst st s p = None).
+  { intros s p. destruct (fst st s p) as [x|] eqn:Hx; [|reflexivity].
+    destruct (ri_below _ _ _ _ H2 s p x Hx) as [Hs _].
+    unfold st in Hx. rewrite fold_left_app in Hx.
+    destruct (exec_releases P (seq 0 S) (fold_left (sm_step P) ops sst0)) as [Hr _].
+    unfold sm_exec, release_all in Hr. unfold release_all in Hx.
+    rewrite (Hr s p) in Hx; [discriminate | apply in_seq; lia]. }
+  split; [|exact Hempty].
+  intros x Hin. destruct (ri_acc _ _ _ _ H2 x) as [[s [p Hx]]|Hc]; [apply in_or_app; now left | | exact Hc].
+  rewrite Hempty in Hx. discriminate.
+Qed.
+
+Lemma forallb_map_seq : forall (f : nat -> bool) n, (forall k, k < n -> f k = true) ->
+  forallb f (seq 0 n) = true.
+Proof.
+  intros f n H. apply forallb_forall. intros k Hk. apply in_seq in Hk. apply H. lia.
+Qed.
+
+(* the judge accepts what the model shows at the end, whenever every stream 0..X-1 was registered *)
+Lemma srace_ok_model : forall S P X ops, adds_below S P ops = true -> all_accepted P X ops = true ->
+  let st := sm_exec P sst0 (ops ++ release_all S) in
+  srace_ok (cvec X (snd st)) (snap S P (fst st)) = true.
+Proof.
+  intros S P X ops Hb Ha st. destruct (srace_model S P ops Hb) as [Hc He]. fold st in Hc, He.
+  unfold srace_ok. apply andb_true_intro. split.
+  - unfold cvec. rewrite forallb_forall. intros c Hin. apply in_map_iff in Hin.
+    destruct Hin as [x [<- Hx]]. apply Nat.leb_le. apply Hc.
+    unfold all_accepted in Ha. rewrite forallb_forall in Ha. apply memb_In. now apply Ha.
+  - unfold snap. rewrite forallb_forall. intros row Hin. apply in_map_iff in Hin.
+    destruct Hin as [s [<- _]]. rewrite forallb_forall. intros o Ho. apply in_map_iff in Ho.
+    destruct Ho as [p [<- _]]. now rewrite He.
+Qed.
+
+Lemma srace_ok_sound : forall closed left, srace_ok closed left = true ->
+  (forall c, In c closed -> 1 <= c) /\ (forall row o, In row left -> In o row -> o = None).
+Proof.
+  intros closed left H. unfold srace_ok in H. apply andb_prop in H. destruct H as [H1 H2].
+  rewrite forallb_forall in H1, H2. split.
+  - intros c Hc. apply Nat.leb_le. now apply H1.
+  - intros row o Hr Ho. specialize (H2 row Hr). rewrite forallb_forall in H2.
+    specialize (H2 o Ho). now destruct o.
+Qed.
+
+(* closing a snapshot outside the lock and forgetting the session afterwards - "closing can block on
+   a slow peer" - loses a stream that is registered in between: a model of that variant *)
+Definition sm_release_late_forget (P : nat) (m : smap) (s : nat) (during : list sop) : sst -> sst :=
+  fun st =>
+    let snapshot := row P (fst st) s in
+    let st1 := sm_exec P st during in           (* what takes effect while the snapshot is being closed *)
+    (fun s' p' => if Nat.eqb s' s then None else fst st1 s' p',
+     fun x => snd st1 x + count_occ Nat.eq_dec snapshot x).
+
+Lemma late_forget_refuted :
+  let st := sm_exec 3 sst0 [OAdd 0 1 0] in
+  let st' := sm_release_late_forget 3 (fst st) 0 [OAdd 0 2 1] st in
+  let fin := sm_exec 3 st' (release_all 1) in
+  srace_ok (cvec 2 (snd fin)) (snap 1 3 (fst fin)) = false.
+Proof. vm_compute. reflexivity. Qed.
+
+(* ------------------------------------------------------------------------------------------ *)
+(* Part 8: a live session keeps duplicates out, however long it lives.                          *)
+Lemma run_stays : forall sid e st t, e <> Fin t -> pcs st t = PRun -> pcs (step New sid e st) t = PRun.
+Proof.
+  intros sid e st t Hne Hr. destruct (Nat.eq_dec (thread_of e) t) as [Ht|Ht].
+  - destruct e as [u|u]; cbn in Ht; subst u.
+    + cbn. now rewrite Hr.
+    + contradiction.
+  - now rewrite step_other_thread.
+Qed.
+
+Lemma live_session_keeps_out_duplicates : forall (sid : nat -> nat) sched1 sched2 t u,
+  pcs (exec New sid sched1 (init New)) t = PRun ->
+  Forall (fun e => e <> Fin t) sched2 ->
+  sid u = sid t -> u <> t ->
+  let st := exec New sid (sched1 ++ sched2) (init New) in
+  pcs st t = PRun /\ pcs st u <> PRun.
+Proof.
+  intros sid sched1 sched2 t u Hr Hnf Hs Hne st.
+  assert (Ht : pcs st t = PRun).
+  { unfold st, exec. rewrite fold_left_app. fold (exec New sid sched1 (init New)).
+    generalize dependent (exec New sid sched1 (init New)).
+    induction sched2 as [|e r IH]; intros s0 H0; [exact H0|].
+    inversion Hnf as [|? ? He Hr']; subst. cbn. apply IH; [exact Hr' | now apply run_stays]. }
+  split; [exact Ht|]. intro Hu. apply Hne.
+  apply (at_most_one_live sid (sched1 ++ sched2) u t Hs Hu Ht).
+Qed.
+
+Lemma long_dup_refused_true : long_dup_refused = true.
+Proof. vm_compute. reflexivity. Qed.
+
+Lemma long_ok_sound : forall fl da ml pa ru, long_ok fl da ml pa ru = true ->
+  (fl = true -> da = false) /\ ml <= 1 /\ pa = false /\ ru = true.
+Proof.
+  intros fl da ml pa ru H. unfold long_ok in H.
+  apply andb_prop in H. destruct H as [H H4]. apply andb_prop in H. destruct H as [H H3].
+  apply andb_prop in H. destruct H as [H1 H2].
+  repeat split.
+  - intro Hf. subst. now destruct da.
+  - now apply Nat.leb_le.
+  - now destruct pa.
+  - exact H4.
+Qed.
